@@ -405,3 +405,33 @@ def turn_cycles(body: bytes) -> dict[str, Any]:
         cur = m["end"]
     return {"streams": len(streams), "data": cyc, "sentinel": sentinel, "error": error, "len": len(body),
             "data_stream_start": st["start"]}
+
+
+def judge_turn(entry: dict[str, Any], cap: int | None) -> dict[str, Any]:
+    """Overshoot rule for one recorded producer turn ("exceeds the cap by at most the last batch written").
+
+    Weakest reading: a violation needs BOTH (a) decoded: the last produce cycle starts at a data-stream offset > cap
+    and (b) wire: len(body) > cap + plain bytes from the start of the last cycle to the end of the body + codec slack.
+    Returns {"n": data batches in the turn, "error": bool, "sentinel": bool, "violation": None | (key_suffix, text)}.
+    """
+    dec = decode_body(entry)
+    t = turn_cycles(dec)
+    res: dict[str, Any] = {"n": len(t["data"]), "error": t["error"], "sentinel": t["sentinel"], "violation": None, "checked": False}
+    if cap is None or len(t["data"]) < 2:
+        return res
+    res["checked"] = True
+    start_last = t["data"][-1][0]
+    rel = start_last - t["data_stream_start"]
+    tail_plain = len(dec) - start_last
+    enc = entry["headers"].get("content-encoding")
+    slack = 0 if not enc else 64 + len(dec) // 100
+    if rel > cap and len(entry["body"]) > cap + tail_plain + slack:
+        kind = "init" if entry["path"].endswith("/init") else "continuation"
+        res["violation"] = (
+            f"{kind}:{'compressed' if enc else 'identity'}",
+            f"{kind} turn ({enc or 'identity'}) body is {len(entry['body'])} wire bytes / {len(dec)} decoded with "
+            f"{len(t['data'])} data batches under max_response_bytes={cap}: the last produce cycle starts at "
+            f"data-stream offset {rel} > cap and the wire body exceeds cap + last cycle ({tail_plain} B) by "
+            f"{len(entry['body']) - cap - tail_plain} bytes",
+        )
+    return res
